@@ -124,6 +124,21 @@ class Vals:
         self.TRUE = self.values["TRUE"]
         self.FALSE = self.values["FALSE"]
         self.NULL = self.values["NULL"]
+        self._register_vint()
+
+    def _register_vint(self):
+        VI = self.values["ValueInt"]
+
+        def wrap(it_, z):
+            o = Obj(VI, {"value": SInt(z) if not z3.is_int_value(z) else z.as_long(), "info": ""})
+            o.fresh = False
+            return o
+
+        def unwrap(it_, v):
+            if isinstance(v, Obj) and v.cls is VI and isinstance(v.fields.get("value"), (int, SInt)):
+                return zi(v.fields["value"])
+            return None
+        self.w.elem_kinds["vint"] = (wrap, unwrap)
 
     def cls(self, name):
         return self.values[name]
@@ -165,6 +180,12 @@ class Vals:
     def list_sym(self, it, name="l", kind="elem"):
         sort = {"int": z3.IntSort(), "str": z3.StringSort()}.get(kind, z3.IntSort())
         pl = PList(sym=z3.Const(name, z3.SeqSort(sort)), kind=kind, label=name)
+        pl.fresh = False
+        return self._mk("ValueList", {"value": pl}, name)
+
+    def list_of_ints(self, it, name="l"):
+        """a list of arbitrary length whose elements are all ValueInt objects (payloads = the z3 Seq(Int) entries)"""
+        pl = PList(sym=z3.Const(name, z3.SeqSort(z3.IntSort())), kind="vint", label=name)
         pl.fresh = False
         return self._mk("ValueList", {"value": pl}, name)
 
